@@ -76,6 +76,43 @@ pub fn leaf_round512() {
     obl!(eq128(&got, &lpq(&ep, &eq)), "round_equals_spec_round_of_p_and_q");
 }
 
+/// the same obligation restricted to the output columns 2k and 2k+1 of the 16-byte rows (a column of the
+/// result depends on one shifted column of the input, so CBMC's slicer keeps an eighth of the S-box
+/// lookups): the eight parts together are the whole statement and run in parallel in the quick tier
+fn eq_cols(a: &[u8; 128], b: &[u8; 128], k: usize) -> bool {
+    let mut ok = true;
+    let mut r = 0;
+    while r < 8 { ok &= a[16 * r + 2 * k] == b[16 * r + 2 * k] && a[16 * r + 2 * k + 1] == b[16 * r + 2 * k + 1]; r += 1; }
+    ok
+}
+pub fn leaf_round512_part(k: usize) {
+    let sbox: [u8; 256] = any();
+    unsafe { crate::models::AES_SBOX = sbox; }
+    let p: M8 = any();
+    let q: M8 = any();
+    let i: u8 = any();
+    nd::assume(i < 10);
+    let got = cc::round_real(i as i64, lpq(&p, &q));
+    let ep = spec::round_p::<8>(p, i, &sbox, spec::SIGMA_P512);
+    let eq = spec::round_q::<8>(q, i, &sbox, spec::SIGMA_Q512);
+    obl!(eq_cols(&got, &lpq(&ep, &eq), k), "round_equals_spec_round_of_p_and_q_on_two_columns");
+}
+pub fn lemma_submix1024_part(k: usize) {
+    let sbox: [u8; 256] = any();
+    unsafe { crate::models::AES_SBOX = sbox; }
+    let y: M16 = any();
+    let is_q: bool = any();
+    let sigma = if is_q { spec::SIGMA_Q1024 } else { spec::SIGMA_P1024 };
+    let got = cc::submix_real(rows16(&pre_shuffle_rows(&y, sigma)));
+    let mut s = [[0u8; 16]; 8];
+    let mut i = 0;
+    while i < 8 { let mut j = 0; while j < 16 { s[i][j] = sbox[y[i][(j + sigma[i]) % 16] as usize]; j += 1; } i += 1; }
+    obl!(eq_cols(&got, &rows16(&spec::mix_bytes::<16>(s)), k), "submix_after_preshuffle_is_mixbytes_shiftbytes_subbytes_on_two_columns");
+}
+macro_rules! g_parts { ($($n:ident, $m:ident, $k:expr);* $(;)?) => { $(
+    harness_x!($n, [kani::stub(core::arch::x86_64::_mm_aesenclast_si128, crate::models::mm_aesenclast_si128)], leaf_round512_part($k));
+    harness_x!($m, [kani::stub(core::arch::x86_64::_mm_aesenclast_si128, crate::models::mm_aesenclast_si128)], lemma_submix1024_part($k));
+)* } }
 harness_x!(c07_leaf_mul2_transposes, [kani::stub(core::arch::x86_64::_mm_aesenclast_si128, crate::models::mm_aesenclast_si128)], leaf_mul2_transposes());
 harness_x!(c07_leaf_round512, [kani::stub(core::arch::x86_64::_mm_aesenclast_si128, crate::models::mm_aesenclast_si128)], leaf_round512());
 
@@ -247,6 +284,10 @@ pub fn wiring_of1024() {
     let b: [u8; 128] = any();
     obl!(eq128(&cc::init1024_real(b), &rows16(&spec::from_bytes::<16, 128>(&b))), "init1024_is_row_layout_of_iv");
 }
+g_parts!(c07_leaf_round512_part0, c07_lemma_submix1024_part0, 0; c07_leaf_round512_part1, c07_lemma_submix1024_part1, 1;
+         c07_leaf_round512_part2, c07_lemma_submix1024_part2, 2; c07_leaf_round512_part3, c07_lemma_submix1024_part3, 3;
+         c07_leaf_round512_part4, c07_lemma_submix1024_part4, 4; c07_leaf_round512_part5, c07_lemma_submix1024_part5, 5;
+         c07_leaf_round512_part6, c07_lemma_submix1024_part6, 6; c07_leaf_round512_part7, c07_lemma_submix1024_part7, 7);
 harness_x!(c07_lemma_submix1024, [kani::stub(core::arch::x86_64::_mm_aesenclast_si128, crate::models::mm_aesenclast_si128)], lemma_submix1024());
 harness_x!(c07_wiring_tf1024, [kani::stub(groestl_aesni::compressor::submix, groestl_aesni::compressor::verif_incrate::submix_uf)], wiring_tf1024());
 harness_x!(c07_wiring_of1024, [kani::stub(groestl_aesni::compressor::submix, groestl_aesni::compressor::verif_incrate::submix_uf)], wiring_of1024());
